@@ -41,7 +41,8 @@ def p_c11(facts, rep, tier):
         "flipped to COMMITTED (which is what lets descendants treat the chain as complete). P1: the chain-completeness guard of "
         "LiveOverlay::new, evaluated over the three-value status domain (the MIR of the predicate, its closure and helpers is interpreted for "
         "LIVE, DROPPED and COMMITTED), refuses exactly the non-COMMITTED parents; P2: the status word is written only by commit (COMMITTED) and "
-        "drop (compare_exchange LIVE -> DROPPED). Behavioural equivalence of overlays with commits is not decided."
+        "drop (compare_exchange LIVE -> DROPPED). S1: where LiveOverlay::value is consulted, the store is read only on the None edge of a branch "
+        "taken directly on the lookup's result (an overlay delete is final). Behavioural equivalence of overlays with commits is not decided."
     )
     n_fn, n_eff, n_guard = guardfx.run(facts, rep, "C11")
     rep.floor("C11 guardfx functions", n_fn, 2)
@@ -52,6 +53,10 @@ def p_c11(facts, rep, tier):
     np1, np2 = statusdom.run(facts, rep)
     rep.floor("C11 P1 obligations (status guard + truth table)", np1, 1)
     rep.floor("C11 P2 writers of the status word", np2, 2)
+    import shadow
+
+    nu, ns = shadow.run(facts, rep)
+    rep.floor("S1 functions consulting LiveOverlay::value with a store fall-back", nu, 2)
     rep.assume("path feasibility is ignored", "effect table as in rules/guardfx.py")
     rep.trust("rustc MIR (nightly, mir-opt-level=0)", "rules/guardfx.py tables")
 
@@ -61,7 +66,8 @@ def p_c09(facts, rep, tier):
         "C09 (three clauses): (i) Rollback::truncate compares n with the number of logged deltas before any pop / "
         "pending_truncate store and the refusal edge touches nothing; (ii) Nomt::rollback's early exits precede every effect and "
         "the session it runs has record_rollback_delta=false and take_global_guard=false on all paths; (iii) the log is pruned/"
-        "truncated only after the meta switch-over (shared with C03/C17 order rules); (iv) M1: the in-memory image of the log (InMemory.log) is "
+        "truncated only after the meta switch-over (shared with C03/C17 order rules); (v) S1: the reverse-delta worker (and Session::read) fall back to the store only when the overlay chain has NO entry for the key - an overlay delete is a final answer; "
+        "(iv) M1: the in-memory image of the log (InMemory.log) is "
         "mutated only by InMemory's own one-record push_back / pop_back / pop_front, reached only from commit + replay, Rollback::truncate and "
         "writeout_start respectively. Restored values are not decided."
     )
@@ -79,6 +85,10 @@ def p_c09(facts, rep, tier):
 
     nm = logowner.run(facts, rep)
     rep.floor("C09 M1 log-ownership obligations", nm, 6)
+    import shadow
+
+    nu, ns = shadow.run(facts, rep)
+    rep.floor("S1 functions consulting LiveOverlay::value with a store fall-back", nu, 2)
     rep.floor("C09 guardfx functions", n_fn, 2)
     rep.floor("C09 guardfx guards", n_guard, 2)
     rep.assume("path feasibility is ignored", "effect table as in rules/guardfx.py")
@@ -94,7 +104,7 @@ def p_c14(facts, rep, tier):
         "(io::Error, anyhow::Error, BucketExhaustion) is dropped or thrown away by a discarding consumer; R2: every CompleteIo has "
         "its `.result` checked (or is handed on whole) on every success path; R3: every spawned task's channel has a join_task on the "
         "paired receiver; R4: in the five mutating entry points the failure edge of every fallible repo call at or after an effect "
-        "passes a poisoning site (or the callee is proved self-poisoning), and Store::commit refuses when poisoned before starting a sync; R5: no wait/join is reachable without its request/spawn; R6: the I/O back-end builds an Ok completion only on the arm where the syscall result was classified as success, and the classifier says success only under `res == <expected length>`; R7: every loop on the bucket-allocation path (allocate_bucket and what it calls) is iterator- or counter-driven with an exit on the counter, so running out of buckets ends in the error return. "
+        "passes a poisoning site (or the callee is proved self-poisoning), and Store::commit refuses when poisoned before starting a sync; R5: no wait/join is reachable without its request/spawn; R6: the I/O back-end builds an Ok completion only on the arm where the syscall result was classified as success, and the classifier says success only under `res == <expected length>` (enumeration); composed with the back-end, a negative io_uring completion is classified Err (or Retry only on EINTR), never Ok and never Retry unconditionally; R7: every loop on the bucket-allocation path (allocate_bucket and what it calls) is iterator- or counter-driven with an exit on the counter, so running out of buckets ends in the error return. "
         "On-disk atomicity after a failure and liveness are not decided."
     )
     st = strands.Strands(facts)
@@ -104,6 +114,8 @@ def p_c14(facts, rep, tier):
     n4 = errflow.r4_error_exits_poison(facts, rep)
     n6 = errflow.r6_completion_source(facts, rep) + errflow.r6b_classifier(facts, rep)
     rep.floor("R6 obligations", n6, 4)
+    n6s, n6c = errflow.r6c_backend_feeds_classifier(facts, rep)
+    rep.floor("R6 back-end call sites of the classifier fed by io_uring", n6s, 1)
     import termination
 
     n7f, n7 = termination.bounded_region(facts, rep, ["nomt::bitbox::allocate_bucket"], "R7")
